@@ -193,8 +193,49 @@ func Float(g *G, n int) []Program {
 			out = append(out, g.Flush("float"))
 		}
 	}
+	out = append(out, BinaryBoundary(g, "float")...)
 	if g.Pending() > 0 {
 		out = append(out, g.Flush("float"))
+	}
+	return out
+}
+
+// BinaryBoundary: decimal-to-binary radix conversion at the lengths where floor(d*log2(10)) is a multiple of the
+// machine word (d = 58, 135, 212, 289 digits; 1368 digits = 72 full words): a value that reaches 2^(that multiple)
+// needs one more binary word than its smaller neighbours. Short mantissas with such an exponent and full-length
+// mantissas, both sides of the power of two; Float64/Float32/Float for kind "float", Int/Rat/Int64 for "conv".
+func BinaryBoundary(g *G, kind string) []Program {
+	var out []Program
+	for _, d := range []int{58, 135, 212, 289, 1368, 57, 59} {
+		for _, lead := range []string{"9", "7", "63", "62", "1"} {
+			for shape := 0; shape < 3; shape++ {
+				var digits string
+				e := int64(d)
+				switch shape {
+				case 0: // short mantissa, exponent d: leading digits followed by zeros up to d digits
+					digits = lead
+				case 1: // full-length integer
+					digits = lead + g.Digits(d-len(lead))
+				default: // a fraction with d significant digits
+					digits = lead + g.Digits(d-len(lead))
+					e = int64(g.R.Intn(3))
+				}
+				g.Load("r0", g.Bool(), digits, e, 0, g.Mode())
+				if kind == "float" {
+					g.Emit(M{"op": "Float64", "x": "r0"})
+					g.Emit(M{"op": "Float32", "x": "r0"})
+					g.Emit(M{"op": "Float", "x": "r0", "fprec": g.Pick(24, 53, 64, 200), "fmode": g.R.Intn(6)})
+				} else {
+					g.Emit(M{"op": "Int", "x": "r0", "into": g.PickS("", "12345678901234567890123456789")})
+					g.Emit(M{"op": "Rat", "x": "r0", "into": g.PickS("", "5")})
+					g.Emit(M{"op": "Int64", "x": "r0"})
+					g.Emit(M{"op": "IsInt", "x": "r0"})
+				}
+				if g.Pending() >= 150 {
+					out = append(out, g.Flush(kind))
+				}
+			}
+		}
 	}
 	return out
 }
